@@ -1,6 +1,7 @@
 //! qxv — property-based verification harness for quick-xml (see /verif/DESIGN.md)
 #![allow(clippy::all)]
 
+pub mod attrmodel;
 pub mod cfgmodel;
 pub mod engine;
 pub mod gen;
